@@ -142,6 +142,9 @@ def run(prop, tier, seed, replay=None):
                             a[fld] = ch(a[fld]) if a[fld] != '~' else ['~~']
                         if not x['tok']:
                             a['lemma'], a['morph'] = ch('--'), ch('--')
+                        else:
+                            a['lemma'] = ch(rnd.choice(['--', 'l' * 8, 'l' * 16, 'l' * 24]))
+                            a['morph'] = ch(rnd.choice(['--', 'm' * 8, 'Comp.Nom.Sg.Masc', 'm' * 24]))
                     Ts.append(T)
                 corp_args.append(('Q-%05d' % k, Ts, fmt, o, rnd.choice(['-', '-', '#']) if 'gf_split' in o else '-',
                                   None, seed + k, 'random'))
